@@ -24,7 +24,7 @@ from pyvc.loader import Repo  # noqa: E402
 from pyvc.spec import Registry, parse_expr  # noqa: E402
 from pyvc.symex import Unsupported, SpecError, Obligation  # noqa: E402
 from pyvc.symex import has_quantifier  # noqa: E402
-from pyvc.verify import Verifier, discharge, Result, to_smt2, to_smt2_ground, to_smt2_sliced, discharge_smt2, run_cvc5_text  # noqa: E402
+from pyvc.verify import Verifier, discharge, Result, to_smt2, to_smt2_ground, to_smt2_sliced, discharge_smt2, discharge_singles, run_cvc5_text  # noqa: E402
 import specs  # noqa: E402
 
 EVIDENCE_DIR = os.path.join(HERE, "evidence")
@@ -126,6 +126,8 @@ def discharge_one(item):
             if rw.status == "proved":
                 rw.backend = label
                 r = rw
+    if r is None and item.get("nobg"):
+        r = discharge_singles(item["name"], item["kind"], item["line"], item["nobg"], seed=seed)
     if r is None:
         r = discharge_smt2(item["name"], item["kind"], item["line"], item["smt2"], timeout_ms=timeout, seed=seed)
     d = r.to_json()
